@@ -7,5 +7,6 @@ tmp=$(mktemp -d)
 cp go.mod "$tmp/h.mod"; cp go.sum "$tmp/h.sum"
 go build -modfile "$tmp/h.mod" ./ref ./gen ./cmd/... 
 go test -vet=off -modfile "$tmp/h.mod" -count=1 ./ref
+go test -vet=off -modfile "$tmp/h.mod" -count=1 -run TestChecksumTwins ./gen
 rm -rf "$tmp"
 echo setup ok
